@@ -104,7 +104,7 @@ class SqliteStorage(AbstractStorage):
 
             check_for_migration(self)
 
-        self.last_commit = datetime.now()
+        self.last_commit = datetime.now(timezone.utc)
         self.num_uncommitted_statements = 0
 
     def commit(self):
@@ -113,7 +113,7 @@ class SqliteStorage(AbstractStorage):
         unnecessary commits
         """
         self.conn.commit()
-        self.last_commit = datetime.now()
+        self.last_commit = datetime.now(timezone.utc)
         self.num_uncommitted_statements = 0
 
     def conditional_commit(self, num_statements):
@@ -128,7 +128,7 @@ class SqliteStorage(AbstractStorage):
             self.num_uncommitted_statements += num_statements
             if self.num_uncommitted_statements > 50:
                 self.commit()
-            if (datetime.now() - self.last_commit) > timedelta(seconds=10):
+            if (datetime.now(timezone.utc) - self.last_commit) > timedelta(seconds=10):
                 self.commit()
         else:
             self.commit()
